@@ -93,8 +93,8 @@ def _float_job(case):
     try:
         return float_tiling.run(case)
     except Exception as e:  # noqa
-        import traceback
-        return dict(error=f'{type(e).__name__}: {e} {traceback.format_exc()[-300:]}')
+        from lib.errors import describe
+        return dict(error=describe(e, 300))
 
 
 def run(tier, seed):
@@ -134,7 +134,7 @@ def run(tier, seed):
         runs = []
         for k, (c, o) in enumerate(zip(cases, outs)):
             if 'error' in o:
-                rep.machinery.append('float run failed: ' + o['error'])
+                rep.problem('float run failed: ' + o['error'], dict(case=c), clause='tile.unexpected_library_error')
             elif o['exc'] is None:
                 runs.append(dict(tid=k + 1, case=c, **{x: o[x] for x in ('t0', 'tend', 'n_expected', 'init', 'ret', 'steps')}))
         tf = os.path.join(scratch, 'runs.json')
